@@ -193,12 +193,15 @@ func (c *Ctx) DomainRules(prop string) {
 				}
 				// (ii) flag true, and the flag becomes true only below metadata.IP == adminIPs[i]
 				x, path = an.Cut(an.CutQuery{From: from, Target: func(ins ssa.Instruction) bool { return ins == site },
-					AcceptEdge: func(b *ssa.BasicBlock, i int, a *an.Atom) bool {
-						if a == nil || a.Op != "true" {
+					AcceptEdge: c.WithSummaries(func(a *an.Atom, sub Subst) bool {
+						if a == nil {
 							return false
 						}
-						return c.isAdminIPFlag(F, a.LV) || isAdminIPEq(a)
-					}})
+						if isAdminIPEq(resolveAtom(a, sub)) {
+							return true
+						}
+						return a.Op == "true" && c.isAdminIPFlag(F, a.LV)
+					})})
 				if x != nil {
 					c.R.Fail(rule2, Fn(F)+":admin-ip", c.Pos(site), "a voluntary-exit request can be approved without its source address having matched an entry of the administrator list", "exit domain => [metadata.IP == adminIPs[i]] for some i before APPROVED", an.PathString(c.Pos, path))
 				} else {
@@ -224,38 +227,45 @@ func (c *Ctx) DomainRules(prop string) {
 		c.R.Floor(rq.rule, "APPROVED origins of "+Fn(rq.entry), len(appr), 1)
 		for _, o := range appr {
 			site := o.Site
-			x, path := an.Cut(an.CutQuery{From: an.Entry(o.Fn), Target: func(i ssa.Instruction) bool { return i == site },
-				AcceptEdge: c.WithSummaries(func(a *an.Atom, sub Subst) bool { return domainAtomS(a, sub, rq.global, true) })})
-			// the test may sit in a caller frame of the origin chain, on the very request object that is passed down
-			for fi := len(o.Chain) - 1; x != nil && fi >= 0; fi-- {
-				K := o.Chain[fi]
-				var reqArg ssa.Value
-				for _, a := range K.Common().Args {
-					if pt, ok := a.Type().(*types.Pointer); ok && (types.Identical(pt.Elem(), s.AttReq) || types.Identical(pt.Elem(), s.PropReq)) {
-						reqArg = a
+			// the test may sit in any frame of the call chain, but must be applied to the very request object being approved:
+			// the innermost request-typed parameter on the chain, resolved to the entry's frame
+			isRoot := func(f *ssa.Function) bool { return f == rq.entry }
+			ok, wit := c.InterCutCh(o.Fn, site, isRoot, func(ch []Frame) AtomPred {
+				var reqObj ssa.Value
+				for k := len(ch) - 1; k >= 0 && reqObj == nil; k-- {
+					for _, p := range ch[k].Fn.Params {
+						if pt, ok := p.Type().(*types.Pointer); ok && (types.Identical(pt.Elem(), s.AttReq) || types.Identical(pt.Elem(), s.PropReq)) {
+							reqObj = ch[k].Sub.Res(p)
+						}
 					}
 				}
-				if reqArg == nil {
-					continue
+				return func(a *an.Atom, sub Subst) bool {
+					if !domainAtomS(a, sub, rq.global, true) {
+						return false
+					}
+					if reqObj == nil {
+						return false
+					}
+					base, _, _ := domainTestS(a.LV, sub)
+					if b2, _, _, ok := domainArrayTest(a, sub); ok {
+						base = b2
+					}
+					if base == nil {
+						return false
+					}
+					base = sub.Res(base)
+					return base == reqObj || sameValue(base, reqObj)
 				}
-				target := K.(ssa.Instruction)
-				if y, _ := an.Cut(an.CutQuery{From: an.Entry(K.Parent()), Target: func(i ssa.Instruction) bool { return i == target },
-					AcceptEdge: c.WithSummaries(func(a *an.Atom, sub Subst) bool {
-						if !domainAtomS(a, sub, rq.global, true) {
-							return false
-						}
-						base, _, _ := domainTestS(a.LV, sub)
-						if b2, _, _, ok := domainArrayTest(a, sub); ok {
-							base = b2
-						}
-						return base == reqArg || sameValue(base, reqArg)
-					})}); y == nil {
-					x = nil
-				}
+			})
+			var x ssa.Instruction
+			var path []an.Step
+			_ = path
+			if !ok {
+				x = site
 			}
 			want := "every path to APPROVED passes [domain[0:4] == " + rq.global + "] on the request being approved"
 			if x != nil {
-				c.R.Fail(rq.rule, Fn(o.Fn)+" via "+Fn(rq.entry), c.Pos(site), "the protected endpoint's rule approves a request of another domain type; the generic endpoint refuses nothing about it and the watermark it moves is the wrong one", want, an.PathString(c.Pos, path))
+				c.R.Fail(rq.rule, Fn(o.Fn)+" via "+Fn(rq.entry), c.Pos(site), "the protected endpoint's rule approves a request of another domain type; the generic endpoint refuses nothing about it and the watermark it moves is the wrong one", want, wit)
 			} else {
 				c.R.OK(rq.rule, Fn(o.Fn)+" via "+Fn(rq.entry), c.Pos(site), want)
 			}
